@@ -1356,7 +1356,9 @@ fn sentence(rng: &mut Rng, kind: u64) -> Vec<String> {
 /// one variant case, options, vectors), so that the annotation step after parsing is reached with matching
 /// shapes; identifiers in the type are unbound on purpose in some positions.
 fn typed_value(rng: &mut Rng, d: usize) -> (String, String) {
-    let prims: [(&str, &str); 8] = [
+    let prims: [(&str, &str); 10] = [
+        ("nat8", "7"),
+        ("int8", "-7"),
         ("nat", "42"),
         ("int", "-7"),
         ("text", "\"x\""),
@@ -1621,7 +1623,7 @@ pub fn run(ctx: &mut Ctx) {
         ctx.count(&format!("cover:sentence-kind:{kind}"));
         check_input(ctx, &s, "valid-sentences", &mut seen);
     });
-    ctx.cases("one-token-mutants", 0.26, |ctx, rng| {
+    ctx.cases("one-token-mutants", 0.22, |ctx, rng| {
         let kind = rng.below(7);
         let mut toks = sentence(rng, kind);
         let m = mutate(rng, &mut toks);
@@ -1651,6 +1653,33 @@ pub fn run(ctx: &mut Ctx) {
             _ => format!("({})", annotated.join(", ")),
         };
         check_input(ctx, &s, "values-annotated-with-a-matching-type", &mut seen);
+    });
+    // the annotation does NOT match: the parser action has to build its error (which renders the value and the type)
+    ctx.cases("values-annotated-with-another-type", 0.04, |ctx, rng| {
+        let (d1, d2, d3) = (1 + rng.usize(2), 1 + rng.usize(2), 1 + rng.usize(2));
+        let (t1, v1) = typed_value(rng, d1);
+        let (t2, v2) = typed_value(rng, d2);
+        let (t3, _) = typed_value(rng, d3);
+        let inner = match rng.below(6) {
+            0 => format!("vec {{ {v1} : {t1}; {v2} : {t2} }}"),
+            1 => format!("vec {{ {v1} : {t1}; {v2} }}"),
+            2 => format!("opt ({v1} : {t1})"),
+            3 => format!("record {{ a = {v1} : {t1}; b = {v2} : {t2} }}"),
+            4 => format!("variant {{ a = {v1} : {t1} }}"),
+            _ => format!("{v1} : {t1}"),
+        };
+        let ann = match rng.below(4) {
+            0 => t3,
+            1 => format!("vec {t2}"),
+            2 => "nat".to_string(),
+            _ => format!("opt {t1}"),
+        };
+        let s = match rng.below(3) {
+            0 => format!("({inner} : {ann})"),
+            1 => format!("(({inner}) : {ann}, {v2})"),
+            _ => format!("({inner})"),
+        };
+        check_input(ctx, &s, "values-annotated-with-another-type", &mut seen);
     });
     ctx.cases("boundary-numerals", 0.1, |ctx, rng| {
         let s = numeral_templates(rng);
